@@ -945,6 +945,13 @@ class Tables:
 # --------------------------------------------------------------------------------------------------
 # the load path, interpreted once
 # --------------------------------------------------------------------------------------------------
+def _unlist(t):
+    """list(x) / tuple-free copies of a list built in place denote the same sequence of elements."""
+    while isinstance(t, tuple) and t and t[0] == "call" and t[1] == "list" and len(t[2]) == 1 and not t[3] and isinstance(t[2][0], tuple) and t[2][0] and t[2][0][0] == "new":
+        t = t[2][0]
+    return t
+
+
 class Load:
     def __init__(self, ctx):
         prog = ctx.prog
@@ -967,7 +974,7 @@ class Load:
         self.mut_ev = muts[0]
         self.mutdict = self.mut_ev["container"]
         b = self.bind(self.pcls, self.mut_ev["value"])
-        self.mut_samples, self.vector = b.get("samples"), b.get("sample_data_points")
+        self.mut_samples, self.vector = b.get("samples"), _unlist(b.get("sample_data_points"))
         if self.mut_samples is None or self.vector is None or self.vector[0] != "new":
             raise Unsupported("per-mutation DataPoint is not built from (samples, <list built in place>)")
         own = T.own_loops(self.mutdict, self.mut_ev)
@@ -995,6 +1002,7 @@ class Load:
         return len(heads) == 1 and len(ev["guards"]) == len(heads[0]["guards"])
 
     def _arms(self, t, guards):
+        t = _unlist(t)
         if t[0] == "cond":
             self._arms(t[2], guards + ((t[1], True),))
             self._arms(t[3], guards + ((t[1], False),))
